@@ -126,6 +126,8 @@ def circuit_features(sc) -> set[str]:
             f.add("interior-output")
         if len(consumers) > 1:
             f.add("shared-layer")
+            if isinstance(sl, (L.HadamardLayer, L.KroneckerLayer)) and sum(1 for c_ in consumers if isinstance(c_, L.SumLayer) and c_.arity == 1) >= 1:
+                f.add("product-with-several-consumers")
         if isinstance(sl, L.SumLayer):
             f.add("sum:arity>1" if sl.arity > 1 else "sum:arity1")
             if any(isinstance(n, P.MixingWeightParameter) for n in sl.weight.nodes):
